@@ -1,6 +1,6 @@
 //vp:property C08
 //vp:pkg ./tsdb
-//vp:budget wall_s=600
+//vp:budget wall_s=1200
 //vp:bounds LeveledCompactor.plan / planClass / selectDirs / selectOverlappingDirs / splitByRange on n<=3 blocks (thorough 4) with symbolic MinTime < MaxTime in [-2^15, 2^15), symbolic Failed flags, class hint (none / stale-series / selected-series); range ladder {8,32,128} (thorough also {10,30,90}); overlapping compaction on and off; no tombstones; CompactBlockMetas hint propagation on 1..2 (thorough 3) metas with arbitrary hints and time ranges
 //vp:assume with overlapping compaction disabled the blocks of one class do not overlap (the option exists for deployments that resolve overlaps elsewhere); tombstone-triggered single-block plans (float ratio) are outside
 package tsdb
